@@ -4,6 +4,7 @@ import itertools
 import bibtexparser
 from bibtexparser import writer as bwriter
 from bibtexparser.model import (
+    Block,
     Entry,
     ExplicitComment,
     ImplicitComment,
@@ -187,6 +188,10 @@ def o_setter(inp):
     return (None, True, ("setter",))
 
 
+class _OddBlock(Block):
+    """A block type the writer has no rule for."""
+
+
 def o_reuse(inp):
     """One BibtexFormat object used for several writes with its settings changed in between:
     inp {"lib": [block specs], "fmts": [format spec, ...]} - every write must obey the settings current at that time."""
@@ -197,13 +202,24 @@ def o_reuse(inp):
             if k in f and f[k] is not None:
                 setattr(fmt, k, f[k])
         cur = {k: getattr(fmt, k) for k in libgen.FORMAT_ATTRS}
+        if i in (inp.get("interrupt") or ()):
+            # a write that goes wrong half-way (the library ends in a block of a type the writer does not know) must
+            # leave the caller's format object as it was; whether and what it raises is not this property's subject
+            odd = libgen.build_library(inp["lib"])
+            odd.add(_OddBlock(0, "odd"))
+            try:
+                bwriter.write(odd, fmt)
+            except Exception:
+                pass
+            if {k: getattr(fmt, k) for k in libgen.FORMAT_ATTRS} != cur:
+                return (("reuse:format-mutated-by-failed-write", repr({k: getattr(fmt, k) for k in libgen.FORMAT_ATTRS}), repr(cur)), True, ("format-reuse", "interrupted-write"))
         text = bwriter.write(lib, fmt)
         exp = ref_render(lib, cur)
         if text != exp:
             return (("reuse:stale-format-state", f"write #{i} with {cur!r}: {text!r}", repr(exp)), True, ("format-reuse",))
         if {k: getattr(fmt, k) for k in libgen.FORMAT_ATTRS} != cur:
             return (("reuse:format-mutated", repr({k: getattr(fmt, k) for k in libgen.FORMAT_ATTRS}), repr(cur)), True, ("format-reuse",))
-    return (None, len(inp["fmts"]) >= 2, ("format-reuse",))
+    return (None, len(inp["fmts"]) >= 2, ("format-reuse",) + (("interrupted-write",) if inp.get("interrupt") else ()))
 
 
 def o_edited(inp):
@@ -289,7 +305,7 @@ def w_grid(acc):
     for lib in FIXED_LIBS[:2]:
         for a, b, c in itertools.permutations([0, 5, 12, 30, "auto"], 3):
             for ind in ("\t", ""):
-                acc.run("reuse", o_reuse, {"lib": lib, "fmts": [{"value_column": a, "indent": ind}, {"value_column": b, "trailing_comma": True}, {"value_column": c, "indent": "  ", "block_separator": "\n"}]}, True)
+                acc.run("reuse", o_reuse, {"lib": lib, "fmts": [{"value_column": a, "indent": ind}, {"value_column": b, "trailing_comma": True}, {"value_column": c, "indent": "  ", "block_separator": "\n"}], "interrupt": [(len(ind) + len(str(a))) % 3]}, True)
     long_entry = {"type": "misc", "key": "new1", "fields": [["averyveryverylongfieldkeyindeed_andmore", "{v}", 0]], "line": 0, "raw": "r"}
     for lib in FIXED_LIBS[:2]:
         for vc in ("auto", 0, 12):
@@ -338,7 +354,7 @@ def w_random(acc, n, seed):
     cols = st.fixed_dictionaries({"keys": st.lists(st.lists(fkey, max_size=6), min_size=1, max_size=4),
                                   "fmt": libgen.st_format(separators=["\n\n", "\n", ""], comments=False)})
     harness.run_hyp(acc, "columns", o_columns, cols, max(100, n // 3), seed)
-    reuse = st.fixed_dictionaries({"lib": libgen.st_writer_library(5), "fmts": st.lists(libgen.st_format(), min_size=2, max_size=4)})
+    reuse = st.fixed_dictionaries({"lib": libgen.st_writer_library(5), "fmts": st.lists(libgen.st_format(), min_size=2, max_size=4), "interrupt": st.lists(st.integers(0, 3), max_size=2)})
     harness.run_hyp(acc, "reuse", o_reuse, reuse, max(100, n // 6), seed)
     fk = st.sampled_from(["a", "k", "title", "a_much_longer_key_than_any_other_one", "zz"])
     edit = st.one_of(
@@ -375,4 +391,4 @@ def run(chk):
         "and library unchanged; value_column setter validation. Non-trivial: an entry with >= 2 fields under a non-default "
         "format (write), >= 2 fields (columns); distinct by case."
     )
-    chk.required_classes = ["auto", "auto>=2entries", "key-longer-than-column", "empty-indent", "zero-fields+trailing-comma", "failed+custom-comment", "non-blank-separator", "columns", "setter", "format-reuse", "edited-after-read"]
+    chk.required_classes = ["auto", "auto>=2entries", "key-longer-than-column", "empty-indent", "zero-fields+trailing-comma", "failed+custom-comment", "non-blank-separator", "columns", "setter", "format-reuse", "interrupted-write", "edited-after-read"]
